@@ -12,9 +12,9 @@ CONSTANTS
   Policy = "none"
   CtrlAt = {}
   MetaKeys = {1, 2}
-  MetaVals = {1, 2}
+  MetaVals = {1}
   LinkNames = {1}
-  Urls = {1, 2}
+  Urls = {1}
   FinalRule = "last"
   BestRule = "strict"
   LinksRule = "recorded"
